@@ -158,6 +158,10 @@ def run(c):
     tracepath = os.path.join(c.work, "hardfork_trace.ndjson")
     nmaps = len(height_maps(c.tier, random.Random(0), [0, 2, 3]))
 
+    def node_side():
+        """thorough tier: block bodies that share the identifier of a genuine block, delivered to a real node"""
+        return [("internal/verifnode", go("./internal/verifnode/", "^TestVerifC19BodyId$", {"VERIF_OUT": os.path.join(c.work, "bodyid_out.json")}, 1500))]
+
     def hardfork_side():
         """every transition of the restart model -> package chain (real start-up check, ChainDB, receipts)"""
         gen2, T = gen_hardfork()
@@ -168,6 +172,8 @@ def run(c):
                        runs=40 if thorough else 10, run_len=100 if thorough else 50), open(hin, "w"))
         runs = [("chain", go("./chain/", "^TestVerifHardfork$", {"VERIF_IN": hin, "VERIF_OUT": os.path.join(c.work, "hardfork_out.json"),
                                                                  "VERIF_TRACE": tracepath}, 2400))]
+        if thorough:        # what a real node does with a body that shares the genuine block's identifier
+            runs += node_side()
         return gen2, T, runs
 
     t_a = bg("commit", commit_side)
@@ -220,27 +226,34 @@ def run(c):
         lines = [l for l in open(tracepath) if l.strip()] if os.path.exists(tracepath) else []
         if len(lines) < 150:
             raise vlib.Infra("random restart run too short: %d events" % len(lines))
-        ok, matched, total, tres = vlib.validate_trace(SPEC_DIR, "HardforkTrace", "HardforkTrace.cfg", c.work, tracepath, timeout=1500)
-        c.add_tlc(tres, "trace validation of the recorded restart run (HardforkTrace)")
+        # diagnostic configuration first (it implies the verdict configuration): every start decision, version and format as in Hardfork.tla
+        ok, matched, total, tres = vlib.validate_trace(SPEC_DIR, "HardforkTrace", "HardforkTrace_strict.cfg", c.work, tracepath, timeout=1500)
+        c.add_tlc(tres, "trace validation of the recorded restart run (HardforkTrace, decisions as in the model)")
         if not ok:
+            # verdict configuration: decisions/versions are read from the log, only the properties are evaluated
+            ok_v, m_v, total, tres_v = vlib.validate_trace(SPEC_DIR, "HardforkTrace", "HardforkTrace.cfg", os.path.join(c.work, "tvv"), tracepath, timeout=1500)
+            c.add_tlc(tres_v, "trace validation of the recorded restart run (HardforkTrace, property only)")
             ev = lines[matched] if matched < len(lines) else ""
-            sig = {"kind": "trace-rejected"}
-            try:
-                sig["event"] = json.loads(ev).get("ev")
-            except Exception:
-                pass
-            c.violation(sig, {"event_index": matched, "event": ev, "context": lines[max(0, matched - 6):matched]},
-                        "HardforkTrace rejects the recorded execution at event %d of %d: %s" % (matched, total, ev[:300]))
+            if ok_v:
+                c.notes.append("DIVERGENCE module=Hardfork step=%d: the code decides differently from Hardfork.tla (%s) but the recorded run has the property" % (matched, ev.strip()[:200]))
+                c.traces_validated = sum(1 for l in lines if '"Reset"' in l) + 1
+            else:
+                ev = lines[m_v] if m_v < len(lines) else ""
+                sig = {"kind": "trace-rejected"}
+                try:
+                    sig["event"] = json.loads(ev).get("ev")
+                except Exception:
+                    pass
+                c.violation(sig, {"event_index": m_v, "event": ev, "context": lines[max(0, m_v - 8):m_v]},
+                            "HardforkTrace rejects the recorded execution at event %d of %d (a block changed its version / receipts across a restart, "
+                            "or the versions along the chain decrease): %s" % (m_v, total, ev[:300]))
         else:
             c.traces_validated = sum(1 for l in lines if '"Reset"' in l) + 1
             # binding self-test: a run with one altered observation must be rejected
-            idx = [i for i, l in enumerate(lines) if '"AddBlock"' in l or '"Start"' in l]
+            idx = [i for i, l in enumerate(lines) if '"Read"' in l] or [i for i, l in enumerate(lines) if '"AddBlock"' in l]
             i = idx[rng.randrange(len(idx))]
             e = json.loads(lines[i])
-            if e["ev"] == "Start":
-                e["ok"] = not e["ok"]
-            else:
-                e["ver"] = e["ver"] + 1
+            e["ver"] = e["ver"] + 1
             bad = os.path.join(c.work, "hardfork_trace_bad.ndjson")
             open(bad, "w").writelines(lines[:i] + [json.dumps(e) + "\n"] + lines[i + 1:])
             ok2, m2, _t2, _ = vlib.validate_trace(SPEC_DIR, "HardforkTrace", "HardforkTrace.cfg", os.path.join(c.work, "tv2"), bad, timeout=1500)
